@@ -130,7 +130,8 @@ func UnpackString(format, pack string, j int, budget uint64) (vals []rt.Value, n
 				u.readStr(int(u.intVal)) &&
 				u.add(rt.StringValue(u.strVal))
 		case 'x':
-			_ = u.skip(1)
+			// align(0) only deals with a preceding "X" (as in the packer)
+			_ = u.align(0) && u.skip(1)
 		case 'X':
 			if u.alignOnly {
 				u.err = errExpectedOption
